@@ -267,7 +267,8 @@ impl CelsData<RawPixels> {
         }
         let validate_ref = |id: CelId| {
             let index = id.frame as usize * num_layers + id.layer as usize;
-            if is_linkable_cel[index] {
+            // The linked frame may not exist at all.
+            if (id.frame as u32) < num_frames && is_linkable_cel[index] {
                 Ok(())
             } else {
                 Err(AsepriteParseError::InvalidInput(format!(
@@ -286,6 +287,12 @@ impl CelsData<RawPixels> {
                         frame: frame as u16,
                         layer: layer as u16,
                     };
+                    if layer >= num_layers {
+                        return Err(AsepriteParseError::InvalidInput(format!(
+                            "Cel {} references a layer that does not exist",
+                            cel_id
+                        )));
+                    }
                     Some(cel.validate(
                         cel_id,
                         layers,
